@@ -50,3 +50,25 @@ pub proof fn lemma_divmod(r: int, j: int, c: int)
 {
     vstd::arithmetic::div_mod::lemma_fundamental_div_mod_converse(r * c + j, c, r, j);
 }
+
+// r <= x / s  ==>  s * r <= x      (stride positions stay inside the image; units V2, V3)
+pub proof fn lemma_stride_bound(x: int, s: int, r: int)
+    requires 0 <= x, 1 <= s, 0 <= r <= x / s,
+    ensures 0 <= s * r <= x,
+{
+    vstd::arithmetic::div_mod::lemma_fundamental_div_mod(x, s);
+    let q = x / s;
+    assert(0 <= s * r <= s * q) by(nonlinear_arith) requires 0 <= r <= q, 1 <= s;
+    assert(0 <= x % s);
+}
+
+// 0 <= x < a * b, b > 0  ==>  0 <= x / b < a  and  0 <= x % b < b
+pub proof fn lemma_div_lt(x: int, a: int, b: int)
+    requires 0 <= x < a * b, 0 < b,
+    ensures 0 <= x / b < a, 0 <= x % b < b,
+{
+    vstd::arithmetic::div_mod::lemma_fundamental_div_mod(x, b);
+    let q = x / b;
+    assert(q < a) by(nonlinear_arith) requires b * q <= x, x < a * b, 0 < b;
+    assert(q >= 0) by(nonlinear_arith) requires x == b * q + x % b, 0 <= x, 0 <= x % b < b, 0 < b;
+}
